@@ -306,6 +306,13 @@ def worlds(draw, ninst=3, hostile_names=True, split_paths=False, foreign_ids=Fal
                 if isinstance(holder[n], dict) and "$ref" not in holder[n] and draw(st.integers(0, 5)) == 0:
                     holder[n] = draw(st.booleans())
                     classes.append("boolean-definition")
+    if draw(st.integers(0, 2)) == 0 and isinstance(root.get("properties", {}), dict):
+        # a subschema that carries an id of its own but no reference beneath it: while an error iterator is
+        # suspended inside it, the scope stack holds that id (harmless unless something else reads the stack)
+        lf = dict(draw(leaf))
+        lf[idkw] = draw(st.sampled_from(["name.json", "sub/", "http://ex.test/elsewhere/x.json", "../up.json"]))
+        root.setdefault("properties", {})[draw(st.sampled_from(["a", "b", "idl"]))] = lf
+        classes.append("id-on-leaf")
     foreign_instances = []
     if foreign_ids:
         # a retrieved document that declares ANOTHER document's URL as its own id (two documents claiming one
